@@ -350,7 +350,7 @@ UFInterpolator::getInterpolant(const ipartitions_t & mask, ItpColorMap * labels,
     } else {
         throw InternalException("Error in UFInterpolator::getInterpolant! No labels passed");
     }
-    srand(2);
+    randomGenerator.seed(2);
     colorCGraph();
 
     // Traverse the graph, look for edges of "color" to summarize
@@ -372,7 +372,7 @@ UFInterpolator::getInterpolant(const ipartitions_t & mask, ItpColorMap * labels,
         else if (usingWeak())
             result = logic.mkNot(ISwap(pi));
         else if (usingRandom())
-            result = (rand() % 2) ? Iprime(pi) : logic.mkNot(ISwap(pi));
+            result = (nextRandom() % 2) ? Iprime(pi) : logic.mkNot(ISwap(pi));
     }
         // Much simpler case when conflict belongs to B
     else if (conf_color == icolor_t::I_B) {
@@ -381,7 +381,7 @@ UFInterpolator::getInterpolant(const ipartitions_t & mask, ItpColorMap * labels,
         else if (usingWeak())
             result = logic.mkNot(IprimeSwap(pi));
         else if (usingRandom())
-            result = (rand() % 2) ? I(pi) : logic.mkNot(IprimeSwap(pi));
+            result = (nextRandom() % 2) ? I(pi) : logic.mkNot(IprimeSwap(pi));
     } else {
         throw InternalException("something went wrong");
     }
@@ -1021,7 +1021,7 @@ icolor_t UFInterpolator::resolveABColor() const {
     } else if (usingWeak()) {
         return icolor_t::I_A;
     } else if (usingRandom()) {
-        return (rand() % 2) ? icolor_t::I_A : icolor_t::I_B;
+        return (nextRandom() % 2) ? icolor_t::I_A : icolor_t::I_B;
     } else {
         assert(false);
         return icolor_t::I_B;
@@ -1122,7 +1122,7 @@ UFInterpolator::labelFactors(std::vector<path_t> & factors) {
     // Random
     else if (usingRandom()) {
         for (const auto & factor : factors) {
-            if (rand() % 2) {
+            if (nextRandom() % 2) {
                 L[factor] = icolor_t::I_B;
             } else {
                 L[factor] = icolor_t::I_A;
